@@ -13,25 +13,25 @@ def chk(pid, text, note, technique=T, cat="model_checking"):
 C=[
  chk("C01","Constructors, encoder and decoder run symbolically for fully symbolic 160/256-bit hashes, scripts and contract-valid public keys on all six nets; each assertion (same kind, same payload, same string, spec string, network membership) is an SMT obligation.","SHA-256/RIPEMD-160 uninterpreted; Base58 abstract bijection (C07); secp256k1 idealised (bchec contract); CashAddr reference transcribed from the spec."),
  chk("C02","Every string with a VALID checksum over an arbitrary 5-bit payload (lengths per tier) and every near-miss prefix is pushed through the real DecodeAddress; acceptance implies canonical re-encoding, known version byte, zero padding, own prefix.","Base58 fallback abstracted (over-approximation); payload lengths per tier; lazy feasibility."),
- chk("C03","The real decoders run on (real codeword XOR symbolic error); the accepting path condition is reduced to GF(2) equations in the error bits and every support of weight<=w containing the last position is one solver query; non-charset substitutions are a separate harness.","Shift argument (pattern can be moved to end at the last symbol) is glue; if the acceptance condition is not affine the sweep falls back to all supports.","symbolic execution of the real decoder + one SMT query per error support over the extracted XOR system"),
+ chk("C03","The real decoders run on (real codeword XOR symbolic error); the accepting path condition is reduced to GF(2) equations in the error bits and every support of weight<=w containing the last position, and every support of weight<=2 anywhere, is one solver query; non-charset substitutions are a separate harness.","Shift argument (pattern can be moved to end at the last symbol) is glue for weights 3..w only; if the acceptance condition is not affine the sweep falls back to all supports.","symbolic execution of the real decoder + one SMT query per error support over the extracted XOR system"),
  chk("C04","One Child step from an arbitrary valid parent (inductive step for any path), NewMaster for every seed length, serialisation layout and address derivation, all as SMT obligations over 256-bit bit-vectors.","HMAC/SHA/RIPEMD uninterpreted, secp256k1 idealised, Base58 stubbed; child scalar 0 outside."),
  chk("C05","Round trip of built and derived keys and strict acceptance of arbitrary decoded payloads behind the Base58 boundary.","as C04; payload lengths per tier."),
  chk("C06","WIF round trip for every scalar in [1,n-1], both flags, every net byte; strict acceptance of arbitrary decoded payloads.","as C04; payload lengths per tier."),
- chk("C07","Real base58.Encode/Decode executed with Int-mode bytes and big.Int as SMT integers (mutual inverses, leading zeros, foreign characters, purity); Base58Check on the abstract boundary; bech32 against a BIP173 transcription, arbitrary strings, ConvertBits, spare-capacity purity.","table lookups are uninterpreted with inverse lemmas verified on the real tables each run; sizes per tier."),
- chk("C08","Implicit-panic, unwinding and allocation obligations of dedicated entry-point harnesses with arbitrary inputs (plus the panic obligations of every other property's harnesses).","dependency decoders are stubs; input sizes per tier; time bound = unwinding bound."),
+ chk("C07","Real base58.Encode/Decode executed with Int-mode bytes and big.Int as SMT integers (mutual inverses, leading zeros, foreign characters, purity) and with bit-vector bytes for arbitrary byte strings containing a foreign byte (UTF-8 sequences included); Base58Check on the abstract boundary; bech32 against a BIP173 transcription, arbitrary strings, ConvertBits, spare-capacity purity.","table lookups are uninterpreted with inverse lemmas verified on the real tables each run; sizes per tier."),
+ chk("C08","Implicit-panic, unwinding and allocation obligations of dedicated entry-point harnesses with arbitrary inputs (plus the panic obligations of every other property's harnesses); a harness borrowed from another property counts only with its panic/allocation/bound obligations.","dependency decoders are stubs; input sizes per tier; time bound = unwinding bound."),
  chk("C09","Insertion/query/reload on a symbolic-length SMT-array filter (1..36000 bytes) with case-split hash-function count; bit array equals the BIP37 reference; MurmurHash3 proved equal to an independent transcription per data length; sizing formula limits.","MurmurHash3 uninterpreted in the filter harnesses; x % m abstracted by r<m; math.Log arbitrary."),
- chk("C10","MatchTxAndUpdate compared (result and final bit array) with a straight-line BIP37 reference on symbolic transactions, filters and flags.","script parsing/class/txid stubbed; block scan not covered."),
+ chk("C10","MatchTxAndUpdate compared (result and final bit array) with a straight-line BIP37 reference on symbolic transactions, filters and flags.","script parsing/class/txid stubbed; block scans with an ideal-set filter model (ZZ_C10_block); counterexamples of the transaction harness are replayed differentially (single-item real filters, real scripts and hash)."),
  chk("C11","Three builders on every subset of an n-transaction block against an independent canonical BIP37 builder, followed by extraction (root, matches, positions).","double-SHA256 uninterpreted and collision free; n per tier."),
  chk("C12","ExtractMatches on arbitrary (count, hash list, flag bytes) against a value-style reference evaluator: accept iff valid, same root and matches; no panic.","hash alphabet / full hashes per tier; sizes per tier."),
- chk("C13","Members match through all four query paths; MatchAny = Zip = Hash = OR Match, on filters built by the real builder with SipHash uninterpreted.","fastReduction replaced by its contract (proved in C14); unary runs <=2; replay pins SipHash."),
- chk("C14","fastReduction equals the high half of the 128-bit product; filter bytes equal the Golomb-Rice reference; N/P/NP serialisations and deserialisers.","UF multiplication with range lemma; builder package not covered."),
+ chk("C13","Members match through all four query paths; MatchAny = Zip = Hash = OR Match, on filters built by the real builder with SipHash uninterpreted; two-filter query histories (no state leaks; sync.Pool modelled).","fastReduction replaced by its contract (proved in C14); unary runs <=2; replay pins SipHash."),
+ chk("C14","fastReduction equals the high half of the 128-bit product; filter bytes equal the Golomb-Rice reference; N/P/NP serialisations and deserialisers; the block-filter builder hands the encoder exactly the specified de-duplicated set, key, P and M; filter hash and header.","UF multiplication with range lemma; the encoder is a recording stub inside the builder harness (natively the real encoder)."),
  chk("C15","Two-step histories over Child/Neuter/parse followed by Zero/SetNet/Child: every other key keeps its observation tuple; Zero erases every buffer.","as C04; history length per tier."),
  chk("C16","Block/Tx accessors in any order with symbolic indices from four constructors against fresh values; same objects on repeat; out-of-range errors.","wire functions stubbed (natively a real block)."),
  chk("C17","Float properties decided with the SMT FloatingPoint theory (z3, cvc5) on the real amount.go code.","division relaxed to its FMA characterisation; strconv outside; product monotonicity assumed."),
  chk("C18","Sort/InPlaceSort/IsSorted with the real sort.Sort on symbolic transactions against a BIP69 reference comparator; non-destructive, permutation, idempotent.","sizes per tier."),
  chk("C19","Four selectors and CoinSet histories on symbolic coin lists and parameters.","value ranges exclude int64 overflow; list sizes per tier."),
 ]
-c20=chk("C20","Lock-discipline verification by symbolic execution: every access to the shared message in every exported Filter method happens with the mutex held, which is released on return; a failure is confirmed by a native -race stress replay.","from 'single critical section of one mutex' to race freedom/linearizability is the standard mutex argument (trusted).","symbolic execution with ghost lock state; native race-detector replay","other")
+c20=chk("C20","Lock-discipline verification by symbolic execution: every access to the shared message in every exported Filter method and in GetMatchedIndices happens with the mutex held, which is released on return; a failure is confirmed by a native -race stress replay (or, for a re-entrant lock, by a call that does not return under a watchdog).","from 'single critical section of one mutex' to race freedom/linearizability is the standard mutex argument (trusted).","symbolic execution with ghost lock state; native race-detector replay","other")
 C.append(c20)
 m={"version":1,
  "setup_cmd":"cd /verif/engine && GOFLAGS=-mod=mod GOPROXY=off GOSUMDB=off GOTOOLCHAIN=local go build -o ../bin/gosmt ./cmd/gosmt",
